@@ -251,7 +251,8 @@ func runC16(x *Ctx) {
 				dirtyReaders[m.B] = true
 			}
 		case sim.KAcquired:
-			if m.A == sim.ObjGzipReader && dirtyReaders[m.B] {
+			// identity-dependent: only with the deterministic providers (sync.Pool's choice is not ours)
+			if m.A == sim.ObjGzipReader && dirtyReaders[m.B] && sc.Provider != "syncpool" {
 				s.Counts["reach:pooled-reader-reused-after-failed-body"] = 1
 			}
 		}
